@@ -1027,6 +1027,7 @@ class Sym:
             if f[0] == "path" and f[1] == ["Self", "with_config"] and len(e[2]) == 1: return ("struct", {"config": self.ev(e[2][0], env)})
             if f[0] == "path" and f[1][-1] == "Some" and len(e[2]) == 1: return ("opt", self.ev(e[2][0], env))
             if f[0] == "path" and f[1][0] == "CircularBuffer" and f[1][-1] in ("default", "new") and not e[2]: return ("L", "[]")
+            if f[0] == "path" and len(f[1]) == 2 and f[1][0].startswith("$") and f[1][1] == "new" and len(e[2]) == 1: return ("tagged", self.ev(e[2][0], env))
             if f[0] == "path" and f[1] == ["MaybeUninit", "new"] and len(e[2]) == 1: return self.ev(e[2][0], env)
             if f[0] == "path" and f[1][-1] in ("zero", "one") and not e[2]: return T(("zero",) if f[1][-1] == "zero" else ("one",))
             if f[0] == "path" and f[1][-1] in ("from", "into") and len(e[2]) == 1: return self.convert(self.ev(e[2][0], env))
@@ -1294,6 +1295,7 @@ class Sym:
                 return self.ev(f[1][2], inner)
             if name == "map" and len(args_e) == 1:
                 if recv[1] is None: return recv
+                if args_e[0][0] == "path" and args_e[0][1][-1] == "new" and args_e[0][1][0].startswith("$"): return ("opt", ("tagged", recv[1]))
                 f = self.ev(args_e[0], env)
                 if f[0] != "closure": raise Unsupported("Option::map with a non-closure")
                 inner = Env(f[2])
